@@ -31,6 +31,7 @@ pub mod c25_sanity;
 pub mod c26_freelist;
 pub mod c27_rawgrow;
 pub mod c28_pageresource;
+pub mod c30_mmapper;
 pub mod c31_resolve;
 pub mod c32_descriptor;
 pub mod c33_align;
@@ -57,6 +58,7 @@ pub fn replay_table() -> Vec<(&'static str, fn(&mut Src))> {
     v.extend_from_slice(c26_freelist::TABLE);
     v.extend_from_slice(c27_rawgrow::TABLE);
     v.extend_from_slice(c28_pageresource::TABLE);
+    v.extend_from_slice(c30_mmapper::TABLE);
     v.extend_from_slice(c31_resolve::TABLE);
     v.extend_from_slice(c32_descriptor::TABLE);
     v.extend_from_slice(c33_align::TABLE);
